@@ -187,6 +187,8 @@ def draw_cfg(rng, prop: str, tier: str, overrides=None) -> dict:
         else:
             n = rng.choice([255, 256, 257, 258, 1000, 1001, 1002, 1024, 1025])
         cfg["bulk"] = {"kind": kind, "n": n, "at": rng.randint(0, 4)}
+        if not cfg["ids"]:
+            cfg["ids"] = ["#x1", "#x2"]  # the follow-ups place explicit-id twins
         cfg["length"] = rng.randint(8, 25)
         cfg["max_nodes"] = 10 ** 6
         cfg["p_fault"] = 0.0
@@ -885,7 +887,7 @@ def gen_bulk_followup(rng, cfg, w: World, opid):
         return None
     if kind == "wide":
         kids = [n for n in made if n.parent is hub]
-        if r < 0.35:
+        if r < 0.25:
             # reject a whole (very wide) level, or all but one child
             verdicts = {}
             keep = rng.choice(kids).uid if kids and rng.random() < 0.5 else None
@@ -895,7 +897,7 @@ def gen_bulk_followup(rng, cfg, w: World, opid):
                 verdicts[hub.uid] = "F"
             tgt = hub_ref if rng.random() < 0.5 else "T0"
             return {"id": opid, "k": "filter", "target": tgt, "verdicts": verdicts, "default": "F"}
-        if r < 0.6 and cfg["ids"]:
+        if r < 0.65 and cfg["ids"]:
             # a node with an explicit id next to / moved next to its twin below the wide parent
             xid = cfg["ids"][0]
             twins = [n for n in mt.nodes() if n.did == xid]
